@@ -21,33 +21,23 @@ Section src2_ind2.
     end.
 End src2_ind2.
 
-Lemma drop_innermost_id : forall depth subst,
-  forallb (fun lv => negb (Nat.eqb (S lv) depth)) (map fst subst) = true -> drop_innermost depth subst = subst.
+Lemma flatten_agree : forall s depth subst, flatten true depth subst s = flatten false depth subst s.
 Proof.
-  unfold drop_innermost. induction subst as [|r subst IH]; intros H; cbn in *; auto.
-  apply andb_prop in H as [H1 H2]. rewrite H1. now rewrite IH.
-Qed.
-
-Lemma flatten_agree : forall s depth subst,
-  guard_C17_index_rebinding depth (map fst subst) s = true -> flatten true depth subst s = flatten false depth subst s.
-Proof.
-  induction s as [dur vs|l IHl|c b IHb|a b c body IHb|lv sc sh body IHb] using src2_ind2; intros depth subst H.
+  induction s as [dur vs|l IHl|c b IHb|a b c body IHb|lv sc sh body IHb] using src2_ind2; intros depth subst.
   - reflexivity.
-  - cbn [flatten]. f_equal. cbn in H. induction IHl as [|x l Hx Hl IH]; [reflexivity|].
-    apply andb_prop in H as [H1 H2]. rewrite (Hx _ _ H1). f_equal. apply IH. exact H2.
-  - cbn in H. apply andb_prop in H as [H1 H2]. cbn [flatten]. rewrite drop_innermost_id by exact H1. f_equal. apply IHb. exact H2.
-  - cbn in H. cbn [flatten]. f_equal. apply IHb. exact H.
-  - cbn in H. cbn [flatten]. apply (IHb depth ((lv, (sc, sh)) :: subst)). exact H.
+  - cbn [flatten]. f_equal. induction IHl as [|x l Hx Hl IH]; [reflexivity|]. rewrite (Hx depth subst). f_equal. apply IH.
+  - cbn [flatten]. f_equal. apply IHb.
+  - cbn [flatten]. f_equal. apply IHb.
+  - cbn [flatten]. apply IHb.
 Qed.
 
-Lemma scope_agree : forall s, guard_C17_index_rebinding 0 [] s = true -> src_of_impl s = src_of_spec s.
-Proof. intros s H. apply (flatten_agree s 0%nat []). exact H. Qed.
+Lemma scope_agree : forall s, src_of_impl s = src_of_spec s.
+Proof. intros s. apply (flatten_agree s 0%nat []). Qed.
 
-(* for i in range(0,3): (i := i + 1) (2 x hold(i/4)) : the builder evaluates the repeated hold at the raw index *)
+(* for i in range(0,3): (i := i + 1) (2 x hold(i/4)): witness of the former finding, plays its staircase since the repair *)
 Definition wit_rebind : src2 :=
   S2Iter 0 3 1 (S2Remap 0 1 1 (S2Rep 2 (S2Hold 1 [VAff 0 [1 # 4]]))).
 
-Lemma rebind_refuted :
-  guard_C17_index_rebinding 0 [] wit_rebind = false /\
-  exists h t, pipeline 200 1 (src_of_impl wit_rebind) = Ok (h, t) /\ plays h (fst (staircase (src_of_spec wit_rebind))) = false.
-Proof. split; [reflexivity|]. eexists; eexists. split; vm_compute; reflexivity. Qed.
+Lemma rebind_repaired :
+  exists h t, pipeline 200 1 (src_of_impl wit_rebind) = Ok (h, t) /\ plays h (fst (staircase (src_of_spec wit_rebind))) = true.
+Proof. eexists; eexists. split; vm_compute; reflexivity. Qed.
